@@ -17,6 +17,18 @@ type Unit struct {
 	Contract *FuncContract
 	Lemma    *Lemma
 	Safety   bool
+	// entry state symbols (for counterexample extraction)
+	Recv   *NamedTerm
+	Params []NamedTerm
+	Ghosts []NamedTerm
+}
+
+// NamedTerm is a program or ghost variable with the symbol that stands for its entry value.
+type NamedTerm struct {
+	Name string
+	Term Term
+	GoT  types.Type
+	CT   string // contract type text (ghosts)
 }
 
 func hasProp(props []string, p string) bool {
@@ -33,6 +45,11 @@ func hasProp(props []string, p string) bool {
 
 // VerifyFunc generates the obligations of one function under contract.
 func VerifyFunc(p *Program, fc *FuncContract, prop string) (u *Unit) {
+	return verifyFuncMode(p, fc, prop, 0)
+}
+
+// verifyFuncMode: unroll == 0 is the proof mode (invariants); unroll > 0 is the counterexample-search mode.
+func verifyFuncMode(p *Program, fc *FuncContract, prop string, unroll int) (u *Unit) {
 	u = &Unit{Name: fc.Key(), Kind: "func", File: relFile(fc.File), Props: fc.Props, Contract: fc}
 	w := NewWorld()
 	u.World = w
@@ -47,6 +64,7 @@ func VerifyFunc(p *Program, fc *FuncContract, prop string) (u *Unit) {
 	}
 	x := NewExec(p, w, prop+"/"+fc.Key())
 	x.safety = !fc.Flags["nosafety"]
+	x.unroll = unroll
 	u.Safety = x.safety
 	defer func() {
 		if r := recover(); r != nil {
@@ -71,16 +89,20 @@ func VerifyFunc(p *Program, fc *FuncContract, prop string) (u *Unit) {
 	env := &Env{vars: map[types.Object]Term{}, pc: True}
 	if rv := sig.Recv(); rv != nil {
 		env.vars[rv] = x.fresh(rv.Name(), rv.Type())
+		u.Recv = &NamedTerm{Name: rv.Name(), Term: env.vars[rv], GoT: rv.Type()}
 	}
 	for i := 0; i < sig.Params().Len(); i++ {
 		pv := sig.Params().At(i)
 		env.vars[pv] = x.fresh(pv.Name(), pv.Type())
+		u.Params = append(u.Params, NamedTerm{Name: pv.Name(), Term: env.vars[pv], GoT: pv.Type()})
 	}
 	for _, rv := range cx.results {
 		env.vars[rv] = x.zero(rv.Type())
 	}
 	for _, g := range fc.Ghosts {
 		cx.ghosts[g.Name] = x.freshOfTypeName(g.Name, g.Type, fi.Pkg.Name)
+		gt := cx.ghosts[g.Name]
+		u.Ghosts = append(u.Ghosts, NamedTerm{Name: g.Name, Term: gt, GoT: x.resolveTypeName(g.Type, fi.Pkg.Name).goT, CT: g.Type})
 	}
 	cx.oldEnv = env.clone()
 	// requires
